@@ -74,6 +74,11 @@ TABLE = {
     ("on_commitment_revocation::{closure#0}", "cryptography::encrypt"): ("ok", "encrypting a locally produced transaction"),
 }
 
+LOOKUPS = ("HashMap::<K, V, S, A>::get", "HashMap::<K, V, S, A>::get_mut", "HashMap::<K, V, S, A>::remove", "Gatekeeper::has_subscription_expired",
+           "Gatekeeper::get_user_info", "WTClient::get_tower_status", "WTClient::load_tower_info", "DBM::load_tracker", "DBM::load_appointment",
+           "DBM::load_tower_record", "DBM::get_appointment_length", "DBM::get_appointment_user_and_length", "DBM::load_registration_receipt",
+           "DBM::load_appointment_receipt", "DBM::update_appointment", "DBM::update_tracker_status")
+
 # which in-memory map mirrors which table (PL7 / gatekeeper): a None look-up under the map's lock means no row
 MIRRORS = {"teos::dbm::DBM::store_user": ("get_mut", "None")}
 
@@ -208,7 +213,19 @@ def rule_PN(ctx, tier, scope="all", only=None, name=None):
             continue
         bl = ctx.locks.locks(bid)
         for bb, t in b.calls():
-            if t.get("x") or not (call_names(t) & UNW):
+            if t.get("x"):
+                continue
+            if any("HashMap" in n and "Index" in n and n.endswith("::index") for n in call_names(t)) and not only:
+                ikey = "%s<-map[index]" % shortfn(bid)
+                before = ctx.pf.called_before(b).get(bb, set())
+                if bid.endswith("Watcher::get_breaches::{closure#0}"):
+                    rr.ok(ikey + "[ok: the DB returns a subset of the locators it was asked for]", nontrivial=False)
+                elif any(n.endswith(("::get_mut", "::insert", "::contains_key")) and "HashMap" in n for n in before) and bl.classes_at_term(bb):
+                    rr.ok(ikey + ": key looked up earlier in the same critical section", sample={"rule": "PN", "site": ikey, "class": "map index", "discharge": "same critical section"})
+                else:
+                    rr.fail("unguarded-map-index:%s" % shortfn(bid), "`%s` indexes a HashMap with `[..]` (panics if the key is absent) and nothing in the same critical section establishes the key" % shortfn(bid), where=b.line_of(bb))
+                continue
+            if not (call_names(t) & UNW):
                 continue
             term = ctx.origins(0).operand(b, t["args"][0])
             pt, pname, proj = _producer(term)
@@ -229,6 +246,12 @@ def rule_PN(ctx, tier, scope="all", only=None, name=None):
                 if bid.endswith(fs) and (pname.endswith(ps) or (ps == "param" and pname == "param")):
                     entry = v
             key = "%s<-%s" % (shortfn(bid), shortfn(pname))
+            if entry is None:
+                # not in the confirmed table: judge by the producer's kind (new code is held to the same rules)
+                if "::dbm::DBM::" in pname and _insert_kind(ctx, pname) and str(_insert_kind(ctx, pname)).startswith("plain"):
+                    entry = ("pn3", "auto")
+                elif pname.endswith(LOOKUPS):
+                    entry = ("pn4", "auto")
             if entry is None:
                 taint = _tainted(ctx, ctx.og.operand(b, t["args"][0]), sources)
                 if taint:
